@@ -47,7 +47,7 @@ def state_of(world):
 def follower_steps(rng, names=None):
     names = list(names or FOLLOWERS)
     rng.shuffle(names)
-    steps = [{"m": n, "a": ebb3mon.gen_args(rng, n)} for n in names]
+    steps = [{"m": n, "a": ebb3mon.gen_args(rng, n, reset_ok=True)} for n in names]
     steps.insert(rng.randrange(len(steps) + 1), {"m": "record_error", "a": ["a later error %d" % rng.randrange(1000)]})
     return steps
 
@@ -195,6 +195,39 @@ def special_states(ctx, rng):
         run_case(ctx, ["special state + failing reconnect", "special:" + label], scen3, cause=label + "+failing reconnect")
 
 
+def two_objects(ctx, rng):
+    """Two connection objects alive at once: latching one must not silence or latch the other, and
+    traffic on the healthy one must not revive the latched one (no state shared through the class)."""
+    wa = ebb3mon.World(board_kwargs={"version": "3.0.2", "nickname": "A"})
+    wb = ebb3mon.World(board_kwargs={"version": "3.0.3", "nickname": "B"})
+    wa.attach()
+    wb.attach()
+    name = rng.choice(FOLLOWERS)
+    fault = rng.choice(ebb3mon.fatal_faults_at(rng.choice(["read", "write"]), 0))
+    top, fr = ebb3mon.call_step(wa, {"m": name, "a": ebb3mon.gen_args(rng, name), "faults": [fault]})
+    latched_a = wa.obj.err is not None or wa.obj.port is None
+    scen = {"two_objects": True, "latch": {"m": name, "fault": fault}}
+    findings = []
+    for i in range(rng.randint(4, 12)):
+        w, label = (wa, "A") if rng.random() < 0.5 else (wb, "B")
+        m = rng.choice([f for f in FOLLOWERS if f not in ("reboot", "bootload")])
+        step = {"m": m, "a": ebb3mon.gen_args(rng, m)}
+        err_b_before = wb.obj.err
+        top, first_req = ebb3mon.call_step(w, step)
+        for f in ebb3mon.check_step(w, step, top, i, first_req):
+            findings.append(dict(f, object=label))
+        ctx.count("monitor:blocked depth-0 calls checked" if (label == "A" and latched_a) else "monitor:calls on the healthy twin checked")
+        if label == "A" and latched_a:
+            ctx.case(["two objects alive", "state:latched", "follower:" + m], ("two", name, m, i))
+        if wb.obj.err is not None and err_b_before is None:
+            findings.append({"prop": "C04", "kind": "the healthy object recorded an error although only its twin was faulted",
+                             "object": "B", "method": m, "err": wb.obj.err})
+    for f in findings:
+        if f["prop"] in ("C04", "C05"):
+            ctx.violation(f["kind"] if f["prop"] == "C04" else "two objects: " + f["kind"],
+                          {"scenario": scen, "finding": f, "log_tail": (wa if f.get("object") == "A" else wb).log.dump(30)})
+
+
 def history(ctx, rng):
     names = FOLLOWERS
     steps = []
@@ -238,6 +271,8 @@ def run(ctx):
         if not ctx.alive():
             break
         history(ctx, rng)
+    for _ in range(ctx.budget(1500, 10000)):
+        two_objects(ctx, rng)
     causes = ctx.extra.pop("_causes", set())
     pairs = ctx.extra.pop("_pairs", set())
     transitions = ctx.extra.pop("_transitions", set())
@@ -251,6 +286,8 @@ def run(ctx):
     ctx.need("state:unconnected", 300)
     ctx.need("random history", 200)
     ctx.need("special state", 100)
+    ctx.need("two objects alive", 1000)
+    ctx.need("monitor:calls on the healthy twin checked", 2000)
     ctx.need("special state + failing reconnect", 100)
     ctx.need("monitor:disconnect() calls checked", 300)
     ctx.need("monitor:connect() on a latched, unconnected object checked", 50)
@@ -264,5 +301,9 @@ def run(ctx):
 
 
 def replay(ctx, rec):
+    if rec["witness"]["scenario"].get("two_objects"):
+        for _ in range(300):
+            two_objects(ctx, ctx.rng)
+        return
     run_case(ctx, ["replay"], rec["witness"]["scenario"], cause="replay")
     ctx.extra.pop("_causes", None), ctx.extra.pop("_pairs", None), ctx.extra.pop("_transitions", None)
